@@ -125,6 +125,7 @@ func canon(s []span) ([]span, error) {
 			if !this.max.equal(next.min) { // If equal, we can merge unless both are open (handled below)
 				if len(this.max.pre) == 0 {
 					maxPlusOne := this.max.copy()
+					maxPlusOne.fill(0) // The 1 of "<1" means 1.0.0 here; its successor is not 2.
 					err := maxPlusOne.inc()
 					if err != nil {
 						return nil, err
